@@ -1020,7 +1020,8 @@ pub fn match_expression(
                 crate::patterns::PatternMatchSemantics::OptionGuard,
             )?,
         };
-        let passed_guard = match &arm.guard {
+        // The guard may read names bound by the pattern: it is only meaningful once the pattern matched.
+        let passed_guard = matched && match &arm.guard {
             Some(guard) => guard_expression_true(guard, &guard_env, p)?,
             None => true,
         };
@@ -1175,7 +1176,7 @@ fn match_validate_arm_kinds(
                 crate::patterns::PatternMatchSemantics::OptionGuard,
             )?,
         };
-        let passed_guard = match &arm.guard {
+        let passed_guard = applicable && match &arm.guard {
             Some(guard) => guard_expression_true(guard, &arm_env, p)?,
             None => true,
         };
